@@ -18,7 +18,7 @@ from .c09 import finish
 
 KINDS = ['split', 'flat', 'multi', 'nested', 'nested', 'payload', 'nested_relaxed_inner', 'unsized', 'unsized2', 'targs:generic', 'targs:concrete', 'targs:lifetime', 'targs:const', 'targs:bounded',
          'targs:unsized_arg', 'targs:default_omitted', 'targs:unsized_where', 'targs:bounded_composite', 'flat', 'multi',
-         'targs:nested_arg_wild', 'targs:nested_arg', 'targs:repeated_arg', 'targs:reflexive_mix', 'tworoots']
+         'targs:nested_arg_wild', 'targs:nested_arg', 'targs:repeated_arg', 'targs:reflexive_mix', 'tworoots', 'twokeys']
 # kinds without a reference encoding whose blocks are pairwise distinguished on a shared key by
 # construction: the expansion must compile unless the world holds a type satisfying two blocks
 ACCEPT_WITHOUT_REFERENCE = {'targs:nested_arg_wild', 'targs:nested_arg', 'targs:repeated_arg', 'targs:reflexive_mix', 'tworoots'}
@@ -156,7 +156,7 @@ def split_top(s):
 def run(tier, seed, replay=None):
     rng = random.Random(seed)
     gate = cm.proof_gate(['C03_'])
-    n = 126 if tier == 'quick' else 1680
+    n = 130 if tier == 'quick' else 1690
     if replay:
         rp = json.load(open(replay))
         for k in ('program', 'reference_program'):
